@@ -635,7 +635,8 @@ class Rechunker:
             raise ValueError("Target size is too small.")
         gap_indices = np.argwhere(strax.diff(data) > min_gap).flatten() + 1
         split_indices = [0]
-        argmin = 0
+        # Index in gap_indices of the last split made (none yet)
+        argmin = -1
         if len(gap_indices) != 0:
             n = 0
             while split_indices[-1] + assumed_i < gap_indices[-1]:
